@@ -127,6 +127,9 @@ def condense_dataset(
                   meta_prefix="")
 
     h5_cond.require_group("logs")
+    # `rtdc_copy` does not create the "events" group if the input has no
+    # scalar features (only e.g. "image" and "mask").
+    h5_cond.require_group("events")
 
     # scalar features
     feats_sc = ds.features_scalar
